@@ -230,6 +230,7 @@ def _run(env):
                 label, signer, sig, sobj, msubj, pub, et = item
                 check_pgpy_signature(env, 'pgpy-made', '%s/%s' % (name, label), signer, sig, sobj, msubj, verifier_pub=pub, expect_type=et)
             independent_signer(env, name)
+            independent_messages(env, name)
 
 
 def sig_value_encodings(env):
@@ -335,6 +336,62 @@ def independent_signer(env, name):
                     ctx.fail('independent-signer', 'harness self-check: independent signer/verifier disagree', case)
 
 
+def independent_messages(env, name):
+    """C02(b) for signed MESSAGES: one-pass + literal + signature written by the independent signer; the signature covers the
+    literal's octets as they are (RFC 4880 5.2.4 / 5.9), whatever charset a text literal is in"""
+    ctx, d, pgpy = env.ctx, env.d, env.pgpy
+    k = env.key(name)
+    pub = k.pubkey
+    alg, ipub, ipriv = env.indep(k)
+    keyid = bytes.fromhex(str(k.fingerprint.keyid))
+    fpr = bytes.fromhex(str(k.fingerprint))
+    bodies = [b'plain ascii\n', b'caf\xc3\xa9 utf-8\r\n', b'caf\xe9 latin-1\n', b'\xa3\xa5 \xff\xfe', b'', b'l1\nl2\r\nl3\rl4']
+    if not ctx.quick:
+        bodies += [bytes(range(256)), bytes(ctx.rng.randrange(128, 256) for _ in range(40)), 'snow \u2603 \U0001F600'.encode('utf-16-le')]
+    n = 0
+    for fmt in 'btu':
+        for body in bodies:
+            if fmt == 'u' and not outcome(lambda: body.decode('utf-8'))[0] == 'ok':
+                continue            # format 'u' promises UTF-8; other octets there are not a well-formed message
+            for st in (0x00, 0x01):
+                n += 1
+                hv = 8 if n % 2 else 10
+                if name.startswith('dsa'): hv = 8
+                asm = S.signed_message_maker(d, alg, ipriv, keyid, fpr, fmt, body, st, hv, n)
+                msg = asm()
+                case = {'op': 'indep_msg', 'key': name, 'type': st, 'format': fmt, 'msg': msg.hex()}
+                ctx.case('independent-message', (name, fmt, body, st), sample={'key': name, 'format': fmt, 'type': st, 'body': body[:24].hex()})
+                o = outcome(lambda: bool(pub.verify(pgpy.PGPMessage.from_blob(msg))))
+                if o != ('ok', True):
+                    ctx.fail('independent-message', 'PGPy rejects a valid signed message written by the independent signer', dict(case, impl=repr(o)[:200]))
+                # one octet of the literal body changed: never accepted
+                if body:
+                    i = (n * 7) % len(body)
+                    b2 = bytearray(body); b2[i] ^= (0x01 if body[i] not in (0x0a, 0x0d) else 0x40)
+                    import re as _re
+                    cn = (lambda x: _re.sub(br'\r?\n', b'\r\n', x)) if st == 0x01 else (lambda x: x)
+                    if cn(bytes(b2)) == cn(body):
+                        continue        # the change is invisible in the canonical text form: nothing to demand
+                    msg2 = asm(bytes(b2))
+                    o2 = outcome(lambda: bool(pub.verify(pgpy.PGPMessage.from_blob(msg2))))
+                    if o2 == ('ok', True):
+                        ctx.fail('independent-message', 'signed message still verifies after an octet of its literal body changed',
+                                 dict(case, msg=msg2.hex(), changed=i))
+    # and PGPy-signed literal messages under the independent verifier
+    for text in ['plain\n', 'caf\xe9 \u2603\n', bytes(range(200, 256)), 'l1\r\nl2\n']:
+        m = pgpy.PGPMessage.new(text)
+        sg = k.sign(m, created=t(500))
+        raw = bytes(m._message._contents)
+        sb, ver = S.parse_sig_packet(bytes(sg))
+        p = S.model_sig_parse(d, sb)
+        ctx.case('pgpy-made-message', (name, raw))
+        if p is None:
+            ctx.fail('pgpy-made-message', 'signature on a literal message does not parse', {'op': 'pgpy_msg', 'key': name, 'text': raw.hex()}); continue
+        data = S.model_hashdata(d, 4, p['type'], p['pkalg'], p['halg'], p['raw'], ('doc', raw), rfc=True)
+        if not S.indep_verify(alg, ipub, p['halg'], data, S.read_mpis(p['mpis'])):
+            ctx.fail('pgpy-made-message', 'signature PGPy made on a literal message does not verify over the literal\'s octets', {'op': 'pgpy_msg', 'key': name, 'text': raw.hex(), 'sig': bytes(sg).hex()})
+
+
 def replay(ctx, case):
     env = Env(ctx)
     try:
@@ -349,6 +406,10 @@ def replay(ctx, case):
                 sobj = list(pub.subkeys.values())[0]
             o = outcome(lambda: bool(pub.verify(sobj, pgpy.PGPSignature.from_blob(bytes.fromhex(case['sig'])))))
             return o != ('ok', True)
+        if case.get('op') == 'indep_msg':
+            pub = env.key(case['key']).pubkey
+            o = outcome(lambda: bool(pub.verify(pgpy.PGPMessage.from_blob(bytes.fromhex(case['msg'])))))
+            return (o == ('ok', True)) if 'changed' in case else (o != ('ok', True))
         return True
     finally:
         env.d.close()
